@@ -337,12 +337,12 @@ def run(tier):
         nb, nmodel, corr_bad, known_b, n_pretty = builder_check(res, rt, rng, tier, lean_ok)
         cases, bad = fmtx.correspond(inproc, rng, ["Debug"], 600 if tier == "quick" else 10000) if lean_ok else ([], [])
         checks, ntypes, known_t, samples = behaviour(res, rng, tier)
-        extra = [("correspondence: models of src/fmt.rs DebugTuple and of core's DebugTuple == the real ones on scripted fields", lean_ok and not corr_bad),
+        extra = [("correspondence: models of src/fmt.rs DebugTuple / Padded (call by call) and of core's DebugTuple / DebugStruct == the real ones on scripted fields and nested value trees", lean_ok and not corr_bad),
                  ("correspondence: Debug expander model (builder calls, names, skip) == working-tree expansion", lean_ok and not bad)]
         cov = {
             "evaluations": nb + len(cases) + checks,
             "distinct_nontrivial": nmodel + ntypes,
-            "rule": "builder runs with at least one scripted field compared against the Lean models + generated type pairs (derive_more::Debug vs std derive / hand-written finish_non_exhaustive) under 14 formatter specs and nesting",
+            "rule": "builder runs on scripted fields (literal text, several write_str chunks replayed one by one in the call-by-call model, option-printing fields) and on nested value trees (tuple nodes: the crate's DebugTuple vs core's; struct nodes: core's DebugStruct) compared against the Lean models + generated type pairs (derive_more::Debug vs std derive / hand-written finish_non_exhaustive) under 14 formatter specs and nesting",
             "traces_validated_against_impl": nmodel + len(cases),
             "model_vs_impl_disagreements": len(corr_bad) + len(bad),
             "distribution": {"builder_runs": nb, "builder_runs_in_model": nmodel, "pretty_runs": n_pretty,
@@ -362,7 +362,7 @@ def run(tier):
     res.coverage.update(cov)
     res.coverage["impl_vs_oracle_failures"] = len(res.violations) + len(res.known_hits)
     res.coverage["trusted_base"] += [
-        "model of src/fmt.rs (DebugTuple, Padded) and model of core's DebugTuple/PadAdapter, both compared with the real code on every scripted run",
+        "model of src/fmt.rs (DebugTuple, Padded: text level and call by call) and model of core's DebugTuple / DebugStruct / PadAdapter, compared with the real code on every scripted run and on nested value trees; the tree theorems are about values whose nodes are builder output, leaves are arbitrary functions of the options",
         "writer failure (fmt::Error) is not modelled: sinks are infallible",
         "known finding: pretty mode re-formats fields with fresh options (tuple_eq_std_counterexample is its kernel-checked witness)",
     ]
